@@ -85,7 +85,17 @@ def run_world(bb, w, root, scratch):
 def main(argv):
     worlds_path, out_path = argv[0], argv[1]
     bb = zygote.import_blackbird()
-    root, scratch, d = procs.worker_dirs()
+    if len(argv) > 2:
+        # the controller owns the root, HOME, temp and cache directories: one private
+        # set per interpreter; the interpreter that REPEATS a hash seed runs after the
+        # first one finished and inherits its directories and paths (a second run of the
+        # same thing on the same machine)
+        d = argv[2]
+        root, scratch = os.path.join(d, "root"), os.path.join(d, "env")
+        os.makedirs(root, exist_ok=True)
+        child.private_env(scratch, wipe=False)
+    else:
+        root, scratch, d = procs.worker_dirs()
     try:
         with open(worlds_path) as f, open(out_path, "w") as out:
             for line in f:
@@ -97,8 +107,9 @@ def main(argv):
                 out.write(json.dumps(r) + "\n")
     finally:
         os.chdir("/")
-        import shutil
-        shutil.rmtree(d, ignore_errors=True)
+        if len(argv) <= 2:
+            import shutil
+            shutil.rmtree(d, ignore_errors=True)
     return 0
 
 
